@@ -92,6 +92,7 @@ fn tiny_par_scenario(seed: u64, idx: u64, faulty: bool) -> Scenario {
         mode: if rng.flip() { FillMode::Int } else { FillMode::Bytes },
         hint: rng.flip(),
         label: format!("mini#{idx}"),
+        short_reads: 0,
     }
 }
 
